@@ -394,7 +394,7 @@ func init() {
 				sec = ach.IAT // its own batch type and validator: a larger share than one in 23
 			}
 
-			o := gen.Opts{SECs: []string{sec}, Categories: gen.AllCategories(), MinBatches: 1, MaxBatches: 1, MaxEntries: 3, MaxAddenda: 2,
+			o := gen.Opts{IATCorrections: true, SECs: []string{sec}, Categories: gen.AllCategories(), MinBatches: 1, MaxBatches: 1, MaxEntries: 3, MaxAddenda: 2,
 				NonASCII: i%7 == 3, FullWidth: i%5 == 4, PresetTraces: i%2 == 0, Offset: i%6 == 5}
 			f, err := gen.File(cr.Fork(1), o)
 			if err != nil || f == nil {
